@@ -288,6 +288,7 @@ func drivePeerConc(c *ctx) error {
 		"table-lock hook; non-trivial = a group of >= 2 callers for a peer that had no table entry; distinct = distinct terms"
 	groups, multi := 0, 0
 	run := func(pc pcCase, tag string) error {
+		c.inflight(pc)
 		var labels, obs []string
 		var owner []uint64
 		var g, m int
